@@ -92,14 +92,16 @@ pub struct ClientCfg {
     pub handshake_timeout_s: u64,
     pub channel_timeout_s: u64,
     pub psk: Option<String>,
+    /// keepalive interval and timeout in ms (0 = none); timed on tokio's clock through the guarded
+    /// hook `penguin_mux::verif_hooks::SimInstant`
+    pub keepalive_ms: [u64; 2],
 }
 pub fn spawn_client(c: &ClientCfg) -> ClientHandle {
     let args = Box::into_raw(Box::new(ClientArgs {
         server: ServerUrl::from_str(&c.server).expect("server url"),
         remote: c.remotes.iter().map(|r| Remote::from_str(r).expect("remote spec")).collect(),
-        // `Multiplexor::new_with_opt` hard-wires std::time::Instant, which ignores the paused clock:
-        // keepalive is C16's business in the connection-level simulator
-        keepalive: OptionalDuration::NONE,
+        keepalive: if c.keepalive_ms[0] == 0 { OptionalDuration::NONE } else { Duration::from_millis(c.keepalive_ms[0]).into() },
+        keepalive_timeout: if c.keepalive_ms[1] == 0 { OptionalDuration::NONE } else { Duration::from_millis(c.keepalive_ms[1]).into() },
         max_retry_count: c.max_retry_count,
         max_retry_interval: c.max_retry_interval,
         handshake_timeout: if c.handshake_timeout_s == 0 { OptionalDuration::NONE } else { OptionalDuration::from_secs(c.handshake_timeout_s) },
